@@ -154,8 +154,6 @@ def group_lp():
     # ---- CBC.getValue(): which integral variables are read as binaries (bool): the test on the bounds
     gv = func(tree("lpinterface.py"), "CBC.getValue")
     isint = one([n for n in ast.walk(gv) if isinstance(n, ast.If) and "var.integer()" in ast.unparse(n.test)], "getValue: integrality test")
-    if ast.unparse(isint.test) != "hasattr(var, 'integer') and var.integer()":
-        raise FailClosed("getValue: integrality test changed: " + ast.unparse(isint.test))
     tests = [n for n in ast.walk(isint) if isinstance(n, ast.If) and n is not isint]
     bt = one(tests, "getValue: binary test inside the integral branch")
     if not (len(bt.body) == 1 and isinstance(bt.body[0], ast.Return) and ast.unparse(bt.body[0].value) == "x > 0"):
